@@ -1,8 +1,9 @@
-\* every topology field (address, zone, tokens, registration time, read-only flag and time) and heartbeats; 2 updates deep; zone-aware
+\* every topology field (address, zone, tokens, registration time, read-only flag and time) and heartbeats; 3 updates deep;
+\* zone-aware; sizes 0 and 1
 CONSTANTS
   Inst = {1, 2}
   Ident = {1}
-  Sizes = {1}
+  Sizes = {0, 1}
   Lookbacks = {1}
   Times = {3, 4}
   Readers = {}
